@@ -319,6 +319,12 @@ Expect(s) ==
    inv |-> SortedInv(s),
    cone |-> LET c == coneB \cup ConeOf(s, ObservedNodes(s, LinkedObs(s)), {}) IN
             [n \in 1..s.n |-> n \in c],
+   \* needed when stabilise was called but not when it returns: whether such a node is recomputed
+   \* depends on the engine's schedule, so its invocation is optional (see IncrTrace.JudgeInv)
+   opt |-> LET c == coneB \ ConeOf(s, ObservedNodes(s, LinkedObs(s)), {}) IN
+           [n \in 1..s.n |-> n \in c],
+   \* allocation check: ids are only comparable while every node was created in the same scope
+   scopes |-> [n \in 1..s.n |-> s.scope[n]],
    dlvmin |-> LET d == RefDlvMin(s)
                   RECURSIVE Go(_)
                   Go(t) == IF t = {} THEN <<>> ELSE
